@@ -1,8 +1,97 @@
-import XehModel.Driver.Codec
+/-
+C07 driver — one request line = one record and one split of it across `emit` calls.
+
+  C07 <field>* / <group size>* @<base>
+     field ::= i:<w>:<s|u>:<b|l>:<g|f|c>:<int>      integer, width, signedness, byte order, word form
+             | r:<w>:<b|l>:<g|f|c>:<16 hex>          real (f64 bit pattern), width 32|64 (others: error paths)
+             | b:<bits> | s:<hex utf8> | y:<dec>,<dec>… | z:<hex bytes>
+     <base> = start() of the packed bit-string when it is opened for parsing
+
+Answer:  P <st> [b<bits>] | V <st> <cells…> R<remain> @<pos> | O <st> [<output cell> <output-length cell>]
+  P: pieces of all fields (one interpreter, left to right) collected in a vector, `>bitstr`
+  V: on the same interpreter `open-bitstr` of the result, then the matching read words; stack bottom-first
+  O: fresh interpreter, interception on, `[ pieces of group ] >bitstr emit` per group, then output / output-length
+-/
+import XehModel.Model.CursorRecord
+import XehModel.Driver.C06
 
 namespace Xeh.Driver.C07
+open Xeh Xeh.Codec Xeh.Cur Xeh.Driver.C06
 
-/-- stub: not modelled yet -/
-def handle (_args : List String) : String := "unsupported"
+def parseBo : String → Option Bool
+  | "b" => some true | "l" => some false | _ => none
+
+def parseForm : String → Option Form
+  | "g" => some .generic | "f" => some .fixedBo | "c" => some .fixedCur | _ => none
+
+def hexBytes (cs : List Char) : Option (List Nat) :=
+  match cs with
+  | [] => some []
+  | a :: b :: r => do
+    let x ← hexVal a; let y ← hexVal b
+    let t ← hexBytes r
+    pure ((x * 16 + y) :: t)
+  | _ => none
+
+def parseField (t : String) : Option Field :=
+  match t.splitOn ":" with
+  | ["i", w, sg, bo, fm, v] => do
+    let w ← w.toNat?; let bo ← parseBo bo; let fm ← parseForm fm; let v ← v.toInt?
+    pure (.int w (sg == "s") bo fm v)
+  | ["r", w, bo, fm, x] => do
+    let w ← w.toNat?; let bo ← parseBo bo; let fm ← parseForm fm; let x ← natOfHex x.toList
+    pure (.flt w bo fm (UInt64.ofNat x))
+  | ["b", bits] => if bits.toList.all (fun c => c == '0' || c == '1') then some (.raw (bits.toList.map (· == '1'))) else none
+  | ["s", h] => (hexToStr h.toList).map Field.str
+  | ["y", l] => ((l.splitOn ",").filter (· ≠ "")).mapM String.toNat? |>.map Field.bytes
+  | ["z", h] => (hexBytes h.toList).map Field.cstr
+  | _ => none
+
+def st : Outcome α → String
+  | .ok _ => "ok"
+  | .err e => "err:" ++ errStr e
+  | .panic _ => "panic"
+
+def cellsStr (ds : List Cell) : String := " ".intercalate ((ds.map canonNaN).reverse.map cellStr)
+
+def packPart (fs : List Field) : CurState × Outcome (List Bool) :=
+  match pieces CurState.boot fs with
+  | (s1, .ok cs) =>
+    match run s1 [.push (.vec (CellList.ofList cs)), .toBitstr] with
+    | (s2, .ok ()) =>
+      match s2.ds with
+      | .bitstr b :: r => ({ s2 with ds := r }, .ok b)
+      | _ => (s2, .err .internalError)
+    | (s2, .err e) => (s2, .err e)
+    | (s2, .panic p) => (s2, .panic p)
+  | (s1, .err e) => (s1, .err e)
+  | (s1, .panic p) => (s1, .panic p)
+
+def handle (args : List String) : String :=
+  let (ftoks, rest) := args.span (· ≠ "/")
+  let rest := rest.drop 1
+  let sizes := (rest.filter (fun t => !t.startsWith "@")).mapM String.toNat?
+  let base := ((rest.filter (·.startsWith "@")).head?.bind fun t => (t.drop 1).toString.toNat?).getD 0
+  match ftoks.mapM parseField, sizes with
+  | some fs, some sizes =>
+    let (s1, p) := packPart fs
+    let pStr := match p with
+      | .ok b => "P ok " ++ bitsStr b
+      | o => "P " ++ st o
+    let vStr := match p with
+      | .ok b =>
+        let s2 := { s1 with ds := [] }
+        let (s3, o) := run s2 ([POp.push (.bitstr b), POp.openBitstr base] ++ parseAll fs)
+        let cells := cellsStr s3.ds
+        s!"V {st o}{if cells.isEmpty then "" else " " ++ cells} R{remainOf s3} @{s3.pos}"
+      | _ => "V -"
+    let (s4, o) := emitGroups (step CurState.boot (.intercept true)).1 (splitBy sizes fs)
+    let oStr := match o with
+      | .ok () =>
+        let s5 := runAll s4 [.output, .outputLength]
+        "O ok " ++ cellsStr (s5.ds.take 2)
+      | o => "O " ++ st o
+    s!"{pStr} | {vStr} | {oStr}"
+  | _, _ => "bad-args"
 
 end Xeh.Driver.C07
